@@ -66,6 +66,13 @@ func runC01Types(c *Ctx, w *ATWorld) {
 						continue
 					}
 					w.SetUndoConfig(ser, []string{"None", "Gzip"}[n%2], true, onlyCare)
+					// every third case of a temporal column: the connection's location (DSN parameter loc) is neither UTC
+					// nor the process's own — a service in a container without TZ whose database keeps local time
+					if cl.def.Type == memdb.TDateTime || cl.def.Type == memdb.TTimestamp || cl.def.Type == memdb.TDate {
+						if n%3 == 0 {
+							memdb.SetLocation(time.FixedZone("CST", 8*3600))
+						}
+					}
 					t := w.NewTableName("ty")
 					d := cl.def
 					d.Name = "v"
@@ -127,6 +134,7 @@ func runC01Types(c *Ctx, w *ATWorld) {
 					case w.Eng.OpenStmts() > stmts0:
 						class = "prepared_statement_left_open"
 					}
+					memdb.SetLocation(nil)
 					c.Out.Case(cid, "C01", "skip", "skip")
 					c.Out.Oracle(cid, class == "", class, fmt.Sprintf("%s column, %s, only-care=%v: %s | err=%v before=%s mid=%s final=%s crash=%s", cl.name, ser, onlyCare, q, execErr, before, mid, final, crash))
 					c.Out.Tag(cid, "nontrivial=1")
